@@ -388,6 +388,57 @@ theorem cpp_lexer_reads_integral_coefficient (b : Rat) (hb : b.den = 1) (hd : is
   simp only [isDouble, decide_eq_true_eq] at hd
   rw [hd]
 
+open LpCpp in
+/-- **every coefficient the writer prints is read by the C++ tokenizer as one constant token with its exact magnitude**:
+    `_abs(bias)` — `repr(abs(int(bias)))` for an integral bias, the positional `repr(abs(float(bias)))` otherwise — of a
+    bias with a terminating decimal expansion (≤ 60 places: every dyadic rational up to 2⁻⁶⁰) that is a binary64 value
+    (every bias of a real model is both) is one `cons` token of value `|bias|`: `strtod` consumes the integer part, the
+    point and all fraction digits, sees no exponent, no `0x`, no `inf`/`nan`, and its correctly rounded value is the
+    number itself.  Exponent notation (`repr` of magnitudes ≥ 1e16 or < 1e-4) is outside the writer model. -/
+theorem cpp_lexer_reads_coefficient (b : Rat) (hd : Dec60 b) (hdb : isDouble (absQ b) = true) (rest : List Char)
+    (hr : Stops rest) (fuel : Nat) :
+    lexLine (fuel + 1) ((showAbs b).toList ++ rest) = (lexLine fuel rest).map (Raw.cons (.fin (absQ b)) :: ·) := by
+  by_cases hi : b.den = 1
+  · exact cpp_lexer_reads_integral_coefficient b hi hdb rest hr fuel
+  · have hda : Dec60 (absQ b) := by unfold absQ; split; exact dec60_neg b hd; exact hd
+    have h0 : 0 ≤ absQ b := by unfold absQ; split <;> grind
+    have ha : ¬ (absQ b).den = 1 := by unfold absQ; split <;> simp [hi]
+    have hs : showAbs b = showPosDecimal (absQ b) := by
+      have : (if b < 0 then -b else b) = absQ b := rfl
+      simp only [showAbs, this, ha, if_false]
+    simp only [isDouble, decide_eq_true_eq] at hdb
+    rw [hs, lexLine_showPosDecimal _ h0 hda rest hr fuel, hdb]
+
+open LpCpp in
+/-- **every right-hand side and bound the writer prints is read back exactly**: `repr(float(x))` of a terminating
+    decimal that is a binary64 value, other than the two REAL limits `±1e+30` (printed in exponent notation; their
+    reading is evaluated in `cpp_reader_roundtrip_family_*_partial`), is the token `cons x` when `x ≥ 0` and the two
+    tokens `minus`, `cons (-x)` when `x < 0` (`processtokens` then folds the sign into the constant). -/
+theorem cpp_lexer_reads_rhs_and_bounds (q : Rat) (hd : Dec60 q) (hdb : isDouble (absQ q) = true)
+    (hne : q ≠ realMax ∧ q ≠ -realMax) (rest : List Char) (hr : Stops rest) (fuel : Nat) :
+    lexLine (fuel + 2) ((showFloat q).toList ++ rest) =
+      if q < 0 then (lexLine fuel rest).map (fun ts => Raw.minus :: Raw.cons (.fin (-q)) :: ts)
+      else (lexLine (fuel + 1) rest).map (Raw.cons (.fin q) :: ·) := by
+  simp only [isDouble, decide_eq_true_eq] at hdb
+  unfold showFloat
+  rw [if_neg hne.1, if_neg hne.2]
+  by_cases h3 : q < 0
+  · have ha : absQ q = -q := by simp [absQ, h3]
+    rw [ha] at hdb
+    simp only [h3, if_true]
+    have hl : ("-" ++ showPosDecimal (-q)).toList ++ rest = '-' :: ((showPosDecimal (-q)).toList ++ rest) := by
+      rw [String.toList_append]; rfl
+    rw [hl, lexLine]
+    have hm : singleTok '-' = some Raw.minus := by decide
+    simp only [hm, show ¬ ('-' = '\\' ∨ '-' = ';' ∨ '-' = '\n') by decide, show ¬ ('-' = ' ' ∨ '-' = '\t') by decide,
+      show ¬ ('-' = Char.ofNat 0) by decide, if_false]
+    rw [lexLine_showPosDecimal _ (by grind) (dec60_neg q hd) rest hr fuel, hdb]
+    cases lexLine fuel rest <;> rfl
+  · have ha : absQ q = q := by simp [absQ, h3]
+    rw [ha] at hdb
+    simp only [h3, if_false]
+    rw [lexLine_showPosDecimal _ (by grind) hd rest hr (fuel + 1), hdb]
+
 /-- the hypotheses are met: the writer's continuations (blank, colon, newline, end of line) are stops -/
 example : LpCpp.Stops [' ', '<', '='] ∧ LpCpp.Stops [':', ' '] ∧ LpCpp.Stops ['\n'] ∧ LpCpp.Stops [] :=
   ⟨Or.inr ⟨_, _, rfl, by decide +kernel⟩, Or.inr ⟨_, _, rfl, by decide +kernel⟩, Or.inr ⟨_, _, rfl, by decide +kernel⟩, Or.inl rfl⟩
